@@ -15,7 +15,7 @@ from vlib.serialize import Ser
 SIMS = [pyrtl.Simulation, pyrtl.FastSimulation, pyrtl.CompiledSimulation]
 
 
-def mem_design(aw, dw, nrd, nwr, regports=False):
+def mem_design(aw, dw, nrd, nwr, regports=False, cond=False):
     """`regports`: every port's address/data/enable comes from a Register fed by the Input of the same name
     (so the value a port sees is the one of the previous cycle, and 0 in the first)"""
     pyrtl.reset_working_block()
@@ -28,9 +28,19 @@ def mem_design(aw, dw, nrd, nwr, regports=False):
         r = pyrtl.Register(width, 'r_' + name)
         r.next <<= i
         return r
-    for k in range(nwr):
-        wa, wd, we = src(aw, 'wa%d' % k), src(dw, 'wd%d' % k), src(1, 'we%d' % k)
-        m[wa] <<= MemBlock.EnabledWrite(wd, we)
+    if cond:
+        # the write ports are the branches of one conditional_assignment (branch k taken when wsel == k): each
+        # branch keeps its own enable
+        sel = Input(2, 'wsel')
+        ports = [(src(aw, 'wa%d' % k), src(dw, 'wd%d' % k), src(1, 'we%d' % k)) for k in range(nwr)]
+        with pyrtl.conditional_assignment:
+            for k, (wa, wd, we) in enumerate(ports):
+                with sel == k:
+                    m[wa] |= MemBlock.EnabledWrite(wd, we)
+    else:
+        for k in range(nwr):
+            wa, wd, we = src(aw, 'wa%d' % k), src(dw, 'wd%d' % k), src(1, 'we%d' % k)
+            m[wa] <<= MemBlock.EnabledWrite(wd, we)
     for k in range(nrd):
         ra = src(aw, 'ra%d' % k)
         o = Output(dw, 'rd%d' % k)
@@ -78,17 +88,24 @@ def array_oracle(steps, init, nrd, nwr, dflt=0):
     return out, mem
 
 
-def check_history(ctx, aw, dw, nrd, nwr, steps, init, label, regports=False, sims=None, with_passes=True, dflt=0):
-    """dflt: Simulation/FastSimulation default_value; an unwritten word reads as dflt truncated to the memory's width"""
-    blk, m = mem_design(aw, dw, nrd, nwr, regports)
-    eff = steps if not regports else [{k: 0 for k in steps[0]}] + steps[:-1]
+def check_history(ctx, aw, dw, nrd, nwr, steps, init, label, regports=False, sims=None, with_passes=True, dflt=0, cond=False):
+    """dflt: Simulation/FastSimulation default_value; an unwritten word reads as dflt truncated to the memory's width;
+    cond: the write ports are branches of one conditional_assignment selected by the extra input wsel"""
+    cond = cond and not regports
+    blk, m = mem_design(aw, dw, nrd, nwr, regports, cond)
+    if cond:
+        steps = [dict(s, wsel=ctx.rng.randrange(4)) for s in steps]
+        eff = [dict(s, **{'we%d' % k: int(bool(s['we%d' % k]) and s['wsel'] == k) for k in range(nwr)}) for s in steps]
+        ctx.count('conditional-write-ports', nwr)
+    else:
+        eff = steps if not regports else [{k: 0 for k in steps[0]}] + steps[:-1]
     want, final = array_oracle(eff, init, nrd, nwr, dflt & ((1 << dw) - 1))
     if dflt:
         assert not regports and not with_passes
         sims = [c for c in (sims or SIMS) if c is not pyrtl.CompiledSimulation]
     names = ['rd%d' % k for k in range(nrd)]
     replay = {'kind': 'mem-history', 'aw': aw, 'dw': dw, 'read_ports': nrd, 'write_ports': nwr, 'steps': steps,
-              'init': {str(a): v for a, v in init.items()}, 'label': label, 'registered_ports': regports, 'default_value': dflt}
+              'init': {str(a): v for a, v in init.items()}, 'label': label, 'registered_ports': regports, 'default_value': dflt, 'conditional_ports': cond}
     ok = True
     for simcls in (sims or SIMS):
         real = simrun.run_real(simcls, blk, steps, {}, {m: dict(init)}, dflt, track=None)
@@ -154,7 +171,7 @@ def repeated_use(ctx, sims=None):
     inspect_mem once follows later writes; CompiledSimulation.run() with several steps at once equals stepping."""
     rng = ctx.rng
     n = 0
-    for k in range(ctx.n(4, 30)):
+    for k in range(ctx.n(10, 40)):
         aw, dw = rng.choice([2, 4, 9]), rng.choice([8, 8, 64, 72])
         nrd, nwr = rng.randint(1, 2), rng.randint(1, 2)
         blk, m = mem_design(aw, dw, nrd, nwr, False)
@@ -162,6 +179,7 @@ def repeated_use(ctx, sims=None):
         h1 = history(rng, aw, dw, nrd, nwr, 8)
         h2 = history(rng, aw, dw, nrd, nwr, 8)
         # the second history reads what the first one wrote
+        h1[0]['we0'] = 1                      # at least one write, to an address the second history reads
         hot = [s_['wa0'] for s_ in h1 if s_['we0']]
         for s_ in h2:
             if hot and rng.random() < 0.7:
@@ -169,8 +187,11 @@ def repeated_use(ctx, sims=None):
         user_map = {m: {a: gen.rand_value(rng, dw) for a in hot[:2]}} if k % 2 else None
         replay = {'kind': 'mem-repeated-use', 'aw': aw, 'dw': dw, 'read_ports': nrd, 'write_ports': nwr, 'first': h1, 'second': h2,
                   'memory_value_map': None if user_map is None else {str(a): v for a, v in user_map[m].items()}}
+        pristine = None if user_map is None else dict(user_map[m])
         for simcls in (sims or SIMS):
-            want2, _ = array_oracle(h2, {} if user_map is None else user_map[m], nrd, nwr)
+            # every simulator gets its own copy of the initial contents (some simulators use the dicts they are given)
+            user_map = None if pristine is None else {m: dict(pristine)}
+            want2, _ = array_oracle(h2, {} if user_map is None else pristine, nrd, nwr)
             try:
                 with pyrtl.set_working_block(blk, no_sanity_check=True):
                     sim1 = simcls() if user_map is None else simcls(memory_value_map=user_map)
@@ -182,7 +203,7 @@ def repeated_use(ctx, sims=None):
                     for s_ in h1:
                         sim1.step(dict(s_))
                     # the view taken before stepping shows the present contents
-                    _, final1 = array_oracle(h1, {} if user_map is None else user_map[m], nrd, nwr)
+                    _, final1 = array_oracle(h1, {} if user_map is None else pristine, nrd, nwr)
                     for a in hot[:3]:
                         got = view.get(a, 0) if isinstance(view, dict) else view[a]
                         if got != final1.get(a, 0):
@@ -190,6 +211,13 @@ def repeated_use(ctx, sims=None):
                                           'the array now holds %d' % (simcls.__name__, len(h1), a, got, final1.get(a, 0)),
                                           dict(replay, simulator=simcls.__name__))
                             break
+                    # what the trace recorded as the memory's initial contents (used by output_verilog_testbench) is still
+                    # what the simulation started from, whatever was written since
+                    rec = getattr(sim1.tracer, 'init_memvalue', None)
+                    if user_map is not None and isinstance(rec, dict) and m.id in rec and dict(rec[m.id]) != before:
+                        ctx.violation('trace-initial-memory:' + simcls.__name__, '%s: after %d cycles the trace says the memory started from %r, '
+                                      'the simulation was started from %r' % (simcls.__name__, len(h1), dict(rec[m.id]), before),
+                                      dict(replay, simulator=simcls.__name__))
                     if user_map is not None and set(user_map.keys()) != {m}:
                         ctx.violation('mem-map-modified:' + simcls.__name__, '%s added entries to the memory_value_map passed by the caller' % simcls.__name__,
                                       dict(replay, simulator=simcls.__name__))
@@ -461,7 +489,7 @@ def main(ctx):
         if aw > 64:
             init = {}
         regports = (k % 4 == 1)
-        ok = check_history(ctx, aw, dw, nrd, nwr, steps, init, 'hist#%d' % k, regports)
+        ok = check_history(ctx, aw, dw, nrd, nwr, steps, init, 'hist#%d' % k, regports, cond=(k % 4 == 2))
         if k % 5 == 3 and aw <= 64:
             # the same history with a non-zero default_value (sometimes wider than the word): unwritten words read as
             # its low bits in Simulation and FastSimulation
